@@ -109,6 +109,11 @@ def pair(rec, opname, detail, run, fingerprint, w, inj_every=23, case_key=None, 
     random.seed(4)
     np.random.random(17)
     random.random()
+    if extra_state:
+        import torch
+
+        torch.manual_seed(4242)  # another prior state of torch's global generator for run B
+        torch.rand(5)
     # ---- run B: unrelated global draws injected at line granularity
     try:
         with Injector(rec, inj_every, seed=int(b_np[2]) + 1):
